@@ -154,7 +154,7 @@ theorem foldFields_lengths (S : Schema) (rec : Loader) (d : MsgD) (pfs : List PF
       have b := ih s1 h
       exact ⟨b.1.trans a.1, b.2.trans a.2⟩
 
-theorem foldFields_append (S : Schema) (rec : Loader) (d : MsgD) (as bs : List PField) (st : MState) :
+theorem foldFields_append_s (S : Schema) (rec : Loader) (d : MsgD) (as bs : List PField) (st : MState) :
     foldFields S rec d st (as ++ bs) = (foldFields S rec d st as).bind fun s => foldFields S rec d s bs := by
   induction as generalizing st with
   | nil => rfl
